@@ -128,6 +128,17 @@ type unit struct {
 	outside bool     // see outside.go: package-level variables, byte buffers, literals of foreign types, endless loops
 	strList bool     // see strlist.go: []string literals, lists of strings held by the outside world, `for _, s := range` over both
 	zeroObj []string // outside units: types T whose `var x T` is a fresh object of the outside world ("zero:<T>"), carried as a token
+	// see request.go
+	noRecv     []string            // field-less struct types whose methods are translated as plain functions <Type>_<Method> (the receiver must not be mentioned)
+	extResults map[string][]string // Go types (source text) of the results of a call that leaves the translation, by the call's external name
+	errObj     bool                // err.Error() on an error value is "error.Error" [err]
+
+	pkgUnits  map[string]string // see conf.go: package name -> the (imported) unit that translates it: pkg.F(...) / pkg.T are that unit's
+	tokFields bool              // see conf.go: x.F on a local that holds a token is "field:F" [x]
+
+	sender    bool              // see sender.go: fields and slices of values of the outside world, calls of functions with endless loops
+	pkgConsts map[string]string // see sender.go: package name -> file (relative to the repository) whose string constants give pkg.Name its value
+	tails     []tailSpec        // see sender.go: tails of functions translated as definitions of their own
 }
 
 type world struct {
@@ -139,6 +150,8 @@ type world struct {
 	sigs    map[string]sig
 	globals map[string]bool // outside units: package-level variables of the unit's files
 	pkgs    map[string]bool // outside units: names of imported packages
+
+	pkgConsts map[string]map[string]ast.Expr // sender.go: constants of other packages, by package name
 }
 
 type sig struct {
@@ -147,6 +160,25 @@ type sig struct {
 	result  ty
 	coqName string
 	unit    string
+}
+
+// a struct type name means the translated struct only in the unit that translates it and in units that import
+// that unit (two packages may both have a type Config)
+func (w *world) visibleStruct(name string) bool {
+	if _, ok := w.structs[name]; !ok {
+		return false
+	}
+	if w.cur == nil || contains(w.cur.structs, name) {
+		return true
+	}
+	for _, imp := range w.cur.imports {
+		for _, u := range fnUnits {
+			if u.name == imp && contains(u.structs, name) {
+				return true
+			}
+		}
+	}
+	return false
 }
 
 var coqKeywords = map[string]bool{"in": true, "end": true, "fun": true, "at": true, "as": true, "let": true, "match": true, "with": true,
@@ -200,7 +232,7 @@ func (w *world) goType(e ast.Expr) ty {
 		case "string":
 			return ty{k: kStr}
 		}
-		if _, ok := w.structs[x.Name]; ok {
+		if w.visibleStruct(x.Name) {
 			return ty{k: kStruct, name: x.Name}
 		}
 	case *ast.StarExpr:
@@ -208,7 +240,7 @@ func (w *world) goType(e ast.Expr) ty {
 			return ty{k: kHandle}
 		}
 		if id, ok := x.X.(*ast.Ident); ok {
-			if _, ok := w.structs[id.Name]; ok {
+			if w.visibleStruct(id.Name) {
 				return ty{k: kStruct, name: id.Name}
 			}
 		}
@@ -220,6 +252,9 @@ func (w *world) goType(e ast.Expr) ty {
 			return ty{k: kFMat, bits: 32}
 		}
 	case *ast.SelectorExpr:
+		if t, ok := w.pkgStruct(x); ok {
+			return t
+		}
 		switch exprString(x) {
 		case "time.Time":
 			return ty{k: kTime}
@@ -328,6 +363,8 @@ type fnTr struct {
 	rangeIDs map[token.Pos]int // range loops over string lists, numbered in order of appearance
 
 	breaks bool // outside.go: the endless loop being translated contains `break`: its results are inl state (break) / inr value (return)
+
+	optRet bool // sender.go: the endless loop being translated calls a function that takes fuel: its results are None (callee out of fuel) / Some value (return)
 }
 
 func (f *fnTr) fresh(base string) string {
@@ -470,6 +507,12 @@ func (f *fnTr) pure(e ast.Expr, en env) bool {
 			if f.outsideName(x, en) {
 				p = false
 			}
+			if _, _, ok := f.tokField(x, en); ok {
+				p = false
+			}
+			if _, ok := f.senderField(x, en); ok {
+				p = false
+			}
 		case *ast.BasicLit:
 			if x.Kind == token.FLOAT || (x.Kind == token.STRING && f.u.strTok) {
 				p = false
@@ -498,7 +541,16 @@ func (f *fnTr) isOpaque(e ast.Expr, en env) bool {
 		}
 		return false
 	case *ast.SelectorExpr:
+		if f.senderSelector(x, en) {
+			return false
+		}
 		if f.outsideName(x, en) {
+			return false
+		}
+		if f.isStatusField(x, en) {
+			return false // request.go: a telemetry field of a frame handle is an integer asked of the outside world
+		}
+		if _, _, ok := f.tokField(x, en); ok {
 			return false
 		}
 		_, t, ok := f.fieldPath(x, en)
@@ -595,6 +647,18 @@ func (f *fnTr) expr(e ast.Expr, en env, k func(val, env) string) string {
 		if c, t, ok := f.fieldPath(x, en); ok {
 			return k(val{c, t}, en)
 		}
+		if sel, b, ok := f.tokField(x, en); ok {
+			return f.tokFieldRead(sel, b, en, k)
+		}
+		if _, _, ok := f.tokField(x.X, en); ok {
+			fail("a field of a field of an object of the outside world: %s", exprString(x))
+		}
+		if bl := f.pkgConst(x, en); bl != nil {
+			return f.expr(bl, en, k)
+		}
+		if b, ok := f.senderField(x, en); ok {
+			return f.senderFieldRead(x, b, en, k)
+		}
 		// telemetry of a frame: X.Status.<Field>
 		if st, ok := x.X.(*ast.SelectorExpr); ok && st.Sel.Name == "Status" && !f.isOpaque(st.X, en) && f.translatable(st.X, en) && f.kindOf(st.X, en) == kHandle {
 			return f.expr(st.X, en, func(h val, en env) string {
@@ -668,7 +732,7 @@ func (f *fnTr) expr(e ast.Expr, en env, k func(val, env) string) string {
 			fail("3-index slice")
 		}
 		return f.expr(x.X, en, func(l val, en env) string {
-			if l.t.k == kTok && f.u.outside {
+			if (l.t.k == kTok || (l.t.k == kExt && f.u.sender)) && f.u.outside {
 				return f.sliceTok(x, l, en, k)
 			}
 			if l.t.k != kHList {
@@ -855,6 +919,9 @@ func (f *fnTr) resolveCall(c *ast.CallExpr, en env) (sig, ast.Expr, bool) {
 			return s, nil, true
 		}
 	case *ast.SelectorExpr:
+		if s, ok := f.pkgCall(fn, en); ok {
+			return s, nil, true
+		}
 		var rt ty
 		switch r := fn.X.(type) {
 		case *ast.Ident:
@@ -946,6 +1013,9 @@ func (f *fnTr) call(c *ast.CallExpr, en env, k func(val, env) string) string {
 				}
 				if len(c.Args) == 1 {
 					return f.expr(c.Args[0], en, func(v val, en env) string {
+						if code, ok := f.tokFieldConv(id.Name, bits, v, en, k); ok {
+							return code
+						}
 						t := f.newTmp()
 						switch {
 						case v.t.k == kInt || v.t.k == kExt:
@@ -1087,7 +1157,7 @@ func (f *fnTr) call(c *ast.CallExpr, en env, k func(val, env) string) string {
 			fail("call of %s, whose translation failed", s.coqName)
 		}
 		if fuelFns[s.coqName] {
-			fail("call of %s, which contains an endless loop", s.coqName)
+			return f.fuelCall(c, s, en, k)
 		}
 		callee := s.coqName + " ext"
 		return f.args(c.Args, s.params, en, func(args []string, en env) string {
@@ -1128,6 +1198,7 @@ func (f *fnTr) call(c *ast.CallExpr, en env, k func(val, env) string) string {
 			return code
 		}
 		if f.isOpaque(a, en) || !f.translatable(a, en) {
+			f.refuseSymTokField(a, en)
 			parts = append(parts, "ASym "+coqString(f.path(a)))
 			return rec(i+1, en)
 		}
@@ -1135,6 +1206,9 @@ func (f *fnTr) call(c *ast.CallExpr, en env, k func(val, env) string) string {
 			parts = append(parts, f.asArg(v, a))
 			return rec(i+1, en)
 		})
+	}
+	if code, ok := f.errMethod(c, en, k); ok {
+		return code
 	}
 	// a method called on a token (a pointer or string of the outside world): the token is the first argument
 	if sel, ok := c.Fun.(*ast.SelectorExpr); ok && !f.isOpaque(sel.X, en) && f.translatable(sel.X, en) {
@@ -1321,6 +1395,9 @@ func (f *fnTr) finishReturn(v string, en env, defers []deferred) string {
 			if len(f.loops) > 0 {
 				if f.breaks {
 					return "ret (LRet (inr " + r + "))"
+				}
+				if f.optRet {
+					return "ret (LRet (Some " + r + "))"
 				}
 				return "ret (LRet " + r + ")"
 			}
@@ -1513,6 +1590,9 @@ func (f *fnTr) block(items []item, en env, defers []deferred) string {
 		return s.name + " (" + strings.Join(args, ", ") + ")"
 	case *ast.ForStmt:
 		if s.Init == nil && s.Cond == nil && s.Post == nil {
+			if f.callsFuelFn(s.Body, en) {
+				return f.foreverNested(s, rest, en, defers)
+			}
 			return f.foreverStmt(s, rest, en, defers)
 		}
 		return f.forStmt(s, rest, en, defers)
@@ -1769,6 +1849,7 @@ func (f *fnTr) assign(s *ast.AssignStmt, rest []item, en env, defers []deferred)
 				fail("assignment target %s", exprString(lhs))
 			}
 			if sel, ok := lhs.(*ast.SelectorExpr); ok {
+				f.refuseTokFieldTarget(lhs, en)
 				// m = make([][]float32, n)
 				if name, ok := f.fmatBase(sel, en); ok && v.t.k == kFMat {
 					t := f.newTmp()
@@ -1826,6 +1907,9 @@ func (f *fnTr) assign(s *ast.AssignStmt, rest []item, en env, defers []deferred)
 					fail("tuple assignment from %s", exprString(s.Rhs[0]))
 				}
 				base := f.multiBase(call, en)
+				if code, ok := f.typedResults(s, base, v, rest, en, defers); ok {
+					return code
+				}
 				code := ""
 				for i, l := range s.Lhs {
 					id, ok := l.(*ast.Ident)
@@ -2225,7 +2309,9 @@ func (w *world) translateFunc(u *unit, fd *ast.FuncDecl, s sig) (code string, er
 	}
 	var en env
 	var params []string
-	if fd.Recv != nil && len(fd.Recv.List) == 1 {
+	if _, plain := noRecvMethod(u, fd); plain {
+		checkRecvUnused(fd)
+	} else if fd.Recv != nil && len(fd.Recv.List) == 1 {
 		f.recvType = s.recv
 		if len(fd.Recv.List[0].Names) == 1 {
 			f.recv = fd.Recv.List[0].Names[0].Name
@@ -2238,7 +2324,7 @@ func (w *world) translateFunc(u *unit, fd *ast.FuncDecl, s sig) (code string, er
 	}
 	i := 0
 	for _, p := range fd.Type.Params.List {
-		for _, n := range p.Names {
+		for _, n := range paramNames(p) {
 			t := s.params[i]
 			i++
 			cn := f.fresh(n.Name)
@@ -2304,6 +2390,7 @@ func translateUnits(repo, outdir string, units []*unit) error {
 		w.consts = unitConsts
 		w.cur = u
 		w.globals, w.pkgs = outsideNames(u, files)
+		w.pkgConsts = loadPkgConsts(repo, u)
 		// pass 1: struct names (so that field types can refer to each other)
 		decls := map[string]*ast.StructType{}
 		for _, af := range files {
@@ -2317,6 +2404,9 @@ func translateUnits(repo, outdir string, units []*unit) error {
 					}
 				}
 			}
+		}
+		if err := checkNoRecvTypes(u, decls); err != nil {
+			return err
 		}
 		for _, sn := range u.structs {
 			w.structs[sn] = &structInfo{name: sn, methods: map[string]*ast.FuncDecl{}}
@@ -2358,9 +2448,13 @@ func translateUnits(repo, outdir string, units []*unit) error {
 				if !ok || fd.Body == nil {
 					continue
 				}
+				fd = tailDecl(u, fd)
 				var s sig
 				key := fd.Name.Name
-				if fd.Recv != nil {
+				if tn, ok := noRecvMethod(u, fd); ok {
+					key = tn + "." + fd.Name.Name
+					s.coqName = tn + "_" + fd.Name.Name
+				} else if fd.Recv != nil {
 					rt := w.goType(fd.Recv.List[0].Type)
 					if rt.k != kStruct || !contains(u.structs, rt.name) {
 						continue
@@ -2378,13 +2472,16 @@ func translateUnits(repo, outdir string, units []*unit) error {
 					continue
 				}
 				for _, p := range fd.Type.Params.List {
-					for range p.Names {
+					for range paramNames(p) {
 						s.params = append(s.params, w.goType(p.Type))
 					}
 				}
 				s.result = resultType(w, fd.Type)
 				s.unit = u.name
 				w.sigs[key] = s
+				if s.recv == "" {
+					w.sigs[qualKey(u.name, fd.Name.Name)] = s
+				}
 				defs = append(defs, &fdef{key, fd, s})
 			}
 		}
@@ -2423,6 +2520,7 @@ func translateUnits(repo, outdir string, units []*unit) error {
 
 		var sb strings.Builder
 		fmt.Fprintf(&sb, "(* GENERATED by /verif/translate (fn.go) from %s/{%s} on every check run - do not edit. *)\n", u.dir, strings.Join(u.files, ","))
+		sb.WriteString(u.pkgConstNote())
 		sb.WriteString("From Coq Require Import List ZArith Bool String.\nFrom TR Require Import model.GoSem.\n")
 		for _, im := range u.imports {
 			fmt.Fprintf(&sb, "From TR Require Import translated.%s.\n", im)
@@ -2466,7 +2564,7 @@ func translateUnits(repo, outdir string, units []*unit) error {
 				continue
 			}
 			w.ok[d.s.coqName] = true
-			fmt.Fprintf(&sb, "(* %s: func %s *)\n%s\n", filepath.Join(u.dir), d.key, code)
+			fmt.Fprintf(&sb, "(* %s: func %s *)\n%s%s\n", filepath.Join(u.dir), d.key, u.tailNote(d.key), code)
 		}
 		// names of the definitions that exist, for the record
 		var oks []string
@@ -2546,6 +2644,37 @@ var fnUnits = []*unit{
 		funcs: []string{"ReadHeaderInfo", "toInt", "toStr"}, skip: map[string]bool{},
 		opaque:  []string{"*bufio.Reader", "bytes.Buffer", "interface{}", "map[string]interface{}"},
 		zeroObj: []string{"bytes.Buffer"}, strTok: true, nilZero: true, outside: true},
+	// the D-Bus request path (request.go): snapshot.go and the three service methods; main.go is read for the
+	// package-level variables `processor` and `headerInfo`.  snapshotRecordingTriggers (a loop with a condition
+	// that sleeps for hours) is named so that it is LISTED as untranslated, not silently absent.
+	{name: "Snapshot", dir: "cmd/thermal-recorder", files: []string{"snapshot.go", "service.go", "main.go"},
+		funcs: []string{"newSnapshot", "newSnapshotRecording", "snapshotRecordingTriggers"}, skip: map[string]bool{},
+		opaque: []string{"*dbus.Error", "map[string]interface{}"}, outside: true,
+		noRecv: []string{"service"}, errObj: true,
+		extResults: map[string][]string{"processor.GetRecentFrame": {"uint32", "*cptvframe.Frame"}}},
+	// the configuration mapping (conf.go): four packages, four units; the structs of the go-config library are tokens
+	{name: "ConfMotion", dir: "motion", files: []string{"motionconfig.go"}, funcs: []string{"NewConfig", "validateConfig"},
+		skip: map[string]bool{}, opaque: []string{"*config.Config", "*config.ThermalMotion", "config.ThermalMotion"},
+		strTok: true, outside: true, tokFields: true},
+	{name: "ConfRecorder", dir: "recorder", files: []string{"recorderconfig.go"}, structs: []string{"RecorderConfig"}, funcs: []string{"NewConfig"},
+		skip: map[string]bool{}, opaque: []string{"*config.Config", "window.Window", "*window.Window"},
+		strTok: true, nilZero: true, outside: true, tokFields: true},
+	{name: "ConfThrottle", dir: "throttle", files: []string{"config.go"}, funcs: []string{"NewConfig"},
+		skip: map[string]bool{}, opaque: []string{"*config.Config", "*config.ThermalThrottler", "config.ThermalThrottler"},
+		strTok: true, outside: true, tokFields: true},
+	{name: "Config", dir: "cmd/thermal-recorder", files: []string{"config.go"}, structs: []string{"Config"}, funcs: []string{"ParseConfig"},
+		imports: []string{"ConfMotion", "ConfRecorder", "ConfThrottle"}, skip: map[string]bool{},
+		opaque:   []string{"goconfig.ThermalMotion", "goconfig.ThermalThrottler", "goconfig.Location", "*goconfig.Config"},
+		zeroObj:  []string{"goconfig.Location", "goconfig.Device"},
+		pkgUnits: map[string]string{"motion": "ConfMotion", "recorder": "ConfRecorder", "throttle": "ConfThrottle"},
+		strTok:   true, nilZero: true, outside: true, tokFields: true},
+	// the camera daemon's sending side: the header, the frame loop, and runMain from the call of sendCameraSpecs on
+	{name: "Leptond", dir: "cmd/leptond", files: []string{"main.go"},
+		funcs: []string{"sendCameraSpecs", "runCamera", "runMain_tail"}, skip: map[string]bool{},
+		opaque: []string{"*lepton3.Lepton3", "*net.UnixConn"}, byteTok: true, outside: true, sender: true,
+		pkgConsts: map[string]string{"headers": "headers/headers.go"},
+		tails: []tailSpec{{fn: "runMain", from: "sendCameraSpecs", name: "runMain_tail",
+			params: "conf *Config, camera *lepton3.Lepton3, conn *net.UnixConn, service *leptondService, err error"}}},
 }
 
 // ---------------------------------------------------------------------------------------
